@@ -173,7 +173,8 @@ namespace GeographicLib {
       return;
     }
     int zone1 = 0;
-    while (p < len) {
+    // 3 digits are enough to detect an error; more would overflow zone1
+    while (p < len && p < 3) {
       int i = Utility::lookup(digits_, mgrs[p]);
       if (i < 0)
         break;
